@@ -385,7 +385,7 @@ class Stop(BaseException):
 def run_round(spec, out_file, target, save_frequency, incarnation,
               snap_dir=None, stop_after_trials=None, stop_kind='kill',
               torn=None, line_failpoint=None, spec_types=None,
-              via_run_file=False):
+              via_run_file=False, keep=None):
     """Build a fresh BatchSimulation from the spec on out_file and run it to
     `target` trials.  Returns dict(status, saves, events...)."""
     import contextlib
@@ -421,9 +421,30 @@ def run_round(spec, out_file, target, save_frequency, incarnation,
                              log_file=out_file + '.progress.log',
                              verbose=False)
                 raise _ViaRunFileDone()
-            batch = read_input_dict(typed_spec(spec, spec_types), out_file,
-                                    verbose=False,
-                                    save_frequency=save_frequency)
+            key = json.dumps(spec, sort_keys=True, default=str)
+            if keep is not None and keep.get('key') == key and \
+                    keep.get('batch') is not None:
+                # the session goes on with the objects it already has (a
+                # notebook calling run() again after a pause)
+                if keep.get('mode') == 'sims':
+                    # the same simulation objects in a new batch
+                    from panqec.simulation import BatchSimulation
+                    old = keep['batch']
+                    batch = BatchSimulation(
+                        out_file, save_frequency=save_frequency,
+                        verbose=False)
+                    for sm in old._simulations:
+                        batch.append(sm)
+                else:
+                    batch = keep['batch']
+                    batch.save_frequency = save_frequency
+                info['reused_objects'] = True
+            else:
+                batch = read_input_dict(typed_spec(spec, spec_types),
+                                        out_file, verbose=False,
+                                        save_frequency=save_frequency)
+            if keep is not None:
+                keep['batch'], keep['key'] = batch, key
             if line_failpoint is not None:
                 fp = LineFailpoint(line_failpoint)
                 fp.start()
